@@ -192,6 +192,52 @@ def work(item):
                                                    {"raw": raw.decode(), "got": res}, replay={"foreign": [code, other, body, shape]})
                         part.states.add(report.fp([code, other, body, shape]))
                         part.nontrivial.add(report.fp([code, other, body, shape]))
+        elif kind == "long":
+            # long reply lines through a *real* client connection (its own StreamReader and limits), 8 KiB .. 60 KiB
+            from vf.fakeserver import FakeServer
+            for n in payload:
+                for shape in ("single", "middle-plain", "middle-list", "pwd"):
+                    long = "L" * n
+                    if shape == "single":
+                        raw, want = f"200 {long}\r\n", ("200", [" " + long])
+                    elif shape == "middle-plain":
+                        raw, want = f"211-h\r\n211-{long}\r\n211 t\r\n", ("211", ["-h", "-" + long, " t"])
+                    elif shape == "middle-list":
+                        raw, want = f"250-h\r\n {long}\r\n250 t\r\n", ("250", ["-h", " " + long, " t"])
+                    else:
+                        raw, want = f'257 "/{long}"\r\n', ("257", [f' "/{long}"'])
+                    w2 = World()
+                    try:
+                        fs = FakeServer({"SITE": raw.encode(), "NOOP": b"226 next\r\n"})
+                        w2.run(fs.start())
+                        res = []
+
+                        async def main():
+                            c = a.Client(path_io_factory=a.MemoryPathIO)
+                            await c.connect("127.0.0.1", 2121)
+                            try:
+                                res.append(tuple(await c.command("SITE", "2xx")))
+                            except Exception as exc:
+                                res.append(("EXC", repr(exc)[:80]))
+                            try:
+                                res.append(tuple(await c.command("NOOP", "2xx")))
+                            except Exception as exc:
+                                res.append(("EXC", repr(exc)[:80]))
+                            c.close()
+                        try:
+                            w2.run(main())
+                        except Hang:
+                            res.append(("HANG", ""))
+                        part.evaluations += 1
+                        got = [(str(c), list(i)) if c not in ("EXC", "HANG") else (c, i) for c, i in res]
+                        if got != [want, ("226", [" next"])]:
+                            part.violation({"kind": "long-reply-line", "shape": shape, "length": n},
+                                           {"got": [(c, [x[:40] for x in i] if isinstance(i, list) else i) for c, i in got],
+                                            "want_code": want[0]}, replay={"long": [n, shape]})
+                    finally:
+                        w2.close()
+                part.states.add(report.fp(["long", n]))
+                part.nontrivial.add(report.fp(["long", n]))
         elif kind == "latin1":
             for line in ["é", "a é b", "ÿ", "\xa0x"]:
                 srv = a.Server(encoding="latin-1")
@@ -246,6 +292,8 @@ def build_items(tier):
             items.append(("pairs", (code, mode)))
     items.append(("foreign", [("250", "251"), ("211", "226"), ("150", "550")]))
     items.append(("latin1", None))
+    for n in (1000, 8191, 8192, 8193, 16384, 40000, 60000):
+        items.append(("long", [n]))
     return items
 
 
@@ -258,7 +306,8 @@ def run(tier, seed, t0):
     bounds = {"codes_single_line": 1000, "codes_multi_line": 5 if tier == "quick" else 12, "line_alphabet": LINES,
               "line_counts": "1..5 (4 and 5 over reduced alphabets)" if tier == "quick" else "1..6", "modes": ["plain", "list"],
               "segmentations": "all single cuts, all double cuts for streams <= 24 bytes, byte-by-byte",
-              "pairs": "reduced alphabet, second reply in 3 shapes", "masks": "all masks of length 0..3 over 0159xX?"}
+              "pairs": "reduced alphabet, second reply in 3 shapes",
+              "long_lines": "1000..60000 characters through a real client connection on SimNet (single, middle of a plain / list reply, PWD)", "masks": "all masks of length 0..3 over 0159xX?"}
     return report.finish(
         PID, tier, seed, "model_checking", part, t0,
         rule="bounded-exhaustive: (code, lines, mode) encoded by the real Server.write_response and decoded by the real "
